@@ -5,6 +5,7 @@ package patch
 
 import (
 	"fmt"
+	"strconv"
 	"strings"
 	"testing"
 
@@ -218,6 +219,30 @@ func TestVerifC11D(t *testing.T) {
 	rep := vh.NewReport("C11")
 	defer rep.Write()
 	quick := vh.Quick()
+	// ttl is an xs:double: every lexical form of one value gives the same patch (the MPD writer may use any of them)
+	if sh, _ := vh.Shard(); sh == 0 {
+		newer := strings.Replace(strings.Replace(c11Base, `publishTime="2024-01-01T00:00:10Z"`, `publishTime="2024-01-01T00:00:20Z"`, 1), `minBufferTime="PT2S"`, `minBufferTime="PT4S"`, 1)
+		var ref string
+		for _, ttl := range []string{"60", "60.0", "6e1", "6E+01", "1e+06", "1000000", "0.5", "1.5"} {
+			older := strings.Replace(c11Base, `ttl="60"`, `ttl="`+ttl+`"`, 1)
+			rep.Hit("C11.diff")
+			rep.AddExecs(1)
+			doc, _, err := MPDDiff([]byte(older), []byte(strings.Replace(newer, `ttl="60"`, `ttl="`+ttl+`"`, 1)))
+			if err != nil {
+				rep.Violate("C11.diff", "diff-error:ttl-lexical-form", fmt.Sprintf("ttl=%q: MPDDiff failed: %v", ttl, err), map[string]any{"ttl": ttl})
+				continue
+			}
+			pb, _ := doc.WriteToBytes()
+			if f, _ := strconv.ParseFloat(ttl, 64); f != 60 {
+				continue
+			}
+			if ref == "" {
+				ref = string(pb)
+			} else if string(pb) != ref {
+				rep.Violate("C11.diff", "patch-depends-on-ttl-form", fmt.Sprintf("ttl=%q gives another patch than ttl=\"60\"", ttl), map[string]any{"ttl": ttl})
+			}
+		}
+	}
 	for bi, baseStr := range []string{c11Base, c11BaseDup, c11BaseSiblings} {
 		base, err := vref.ParseXML([]byte(baseStr))
 		if err != nil {
